@@ -15,6 +15,8 @@ PRE = r'''
 #define VB_MODELS_CUSTOM 1
 #include "models_ghost.h"
 #define VB_WAIT(cv, pred) ((void)0)
+struct vb_thread; void vb_join(struct vb_thread *t);
+#define VB_THREAD_JOIN(t) vb_join(t)
 #define VB_GHOST_ObjectHeaderBase uint32_t gh_calc;     /* what calculateObjectSize() returns for this object */
 #define VB_GHOST_CompressedFile int64_t cg; int64_t cp; int cstate; _Bool copen; int cmode;   /* abstract std::fstream */
 #include "blf.h"
@@ -30,8 +32,23 @@ struct ObjectHeaderBase *File_createObject(uint32_t type)
     return o;
 }
 _Bool File_is_open(struct File *self) { return CompressedFile_is_open(&self->m_compressedFile); }
+/* join(t) returns only if t terminates: every wait t can be parked in must have been made permanently true BEFORE the join */
+int g_join_u_ready, g_join_z_ready, g_join_order_ok;
+void vb_join(struct vb_thread *t)
+{
+    struct File *f = vb_file;
+    if (t == &f->m_uncompressedFileThread) {
+        if (f->m_openMode & IOS_in)  g_join_u_ready = (g_abort_u >= 1 && g_abort_q >= 1);      /* parked in stream read or queue write */
+        else                          g_join_u_ready = (g_eos_queue >= 1);                      /* parked in queue read until end of input is declared */
+    } else {
+        if (f->m_openMode & IOS_in)  g_join_z_ready = (g_abort_u >= 1);                        /* parked in stream append */
+        else                          g_join_z_ready = (f->m_uncompressedFileThread.joined == 1);  /* ends only after the encoder declared end of stream, i.e. after it ended */
+    }
+    t->joined = 1;
+}
 static void reset_ghost(struct File *f)
 {
+    g_join_u_ready = g_join_z_ready = -1;
     vb_file = f; vb_exc = 0;
     g_drop_calls = g_push_calls = g_delete_calls = g_writeLC_calls = g_next_calls = g_encode_calls = 0;
     g_compress_calls = g_lcwrite_calls = g_lcdtor = g_eos_queue = g_eos_stream = g_stats_written = g_seekp_calls = g_closed = g_abort_q = g_abort_u = 0;
@@ -194,7 +211,8 @@ void File_uncompressedFile2CompressedFile(struct File *self) { g_rp_u2c++; self-
     File_close(&f);
 '''
     asr = [
-        ('C06/File/close/write-session-declares-end-of-input-before-joining-the-workers', 'g_eos_queue == 1 && g_eos_queue_arg == qtellp'),
+        ('C06/File/close/write-session-declares-end-of-input-before-joining-the-workers', 'g_eos_queue == 1 && g_eos_queue_arg == qtellp && g_join_u_ready == 1'),
+        ('C06/File/close/write-session-joins-the-compressor-after-the-encoder-(which-declares-its-end-of-stream-on-exit)', 'g_join_z_ready == 1'),
         ('C13/File/close/write-session-joins-both-workers-exactly-once-and-closes-the-file', 'f.m_uncompressedFileThread.joined == 1 && f.m_compressedFileThread.joined == 1 && g_closed == 1 && !C.copen'),
         ('C05/File/close/restore-point-offset-is-the-file-position-before-the-trailer-when-enabled', '!f.writeRestorePoints || (f.fileStatistics.restorePointsOffset == (uint64_t)cp0 && g_next_calls == 1 && g_rp_q2u == 1 && g_rp_u2c == 1)'),
         ('C05/File/close/no-trailer-when-restore-points-are-disabled', 'f.writeRestorePoints || (g_next_calls == 0 && g_rp_q2u == 0 && g_rp_u2c == 0 && f.fileStatistics.restorePointsOffset == st0.restorePointsOffset)'),
@@ -210,6 +228,7 @@ void File_uncompressedFile2CompressedFile(struct File *self) { g_rp_u2c++; self-
 '''
     asr = [
         ('C06/File/close/read-session-releases-every-wait-before-joining-(abort-on-stream-and-queue-flags-cleared)', 'g_abort_u == 1 && g_abort_q == 1 && !f.m_uncompressedFileThreadRunning && !f.m_compressedFileThreadRunning'),
+        ('C06/File/close/read-session-each-join-happens-after-the-waits-of-that-worker-were-released', 'g_join_u_ready == 1 && g_join_z_ready == 1'),
         ('C13/File/close/read-session-joins-both-workers-and-closes-the-file', 'f.m_uncompressedFileThread.joined == 1 && f.m_compressedFileThread.joined == 1 && g_closed == 1 && !C.copen'),
         ('C13/File/close/read-session-writes-nothing', 'g_stats_written == 0 && g_seekp_calls == 0'),
     ]
